@@ -24,6 +24,7 @@ fn main() {
     }
     "parse-response" => readback::cmd_parse_response(&args[2..]),
     "dump" => readback::cmd_dump(&args[2..]),
+    "server" => readback::cmd_server(&args[2..]),
     _ => {
       eprintln!("usage: vtool translate <repo> <outdir> | parse-response <files..> | dump <files..>");
       2
